@@ -2,6 +2,7 @@ package props
 
 import (
 	"fmt"
+	"go/ast"
 	"regexp"
 	"strings"
 
@@ -10,7 +11,7 @@ import (
 
 func init() { Registry["C16"] = runC16 }
 
-const explanationC16 = "Decides structural necessary conditions of C16 on http/mux.go through SSA path tables (loops unrolled once): (R16.1) the wildcard table is keyed method+\"::\"+pattern with the same separator and operand order at its store (Handle) and both loads (Vars, resolveWildcard), and the stored pattern is the rewritten one that is also registered with the router; (R16.2) every value placed in the map returned by Vars is unescape(params.Values[i]) and unescape falls back to its input on error; (R16.3) resolveWildcard re-inserts \"/{*name}\" after trimming exactly the length of the \"/*\" replacement; (R16.4) Handle and Use mutate the muxer only under the mutex (Lock first, deferred Unlock); (R16.5) the not-found handler negotiates an encoder, writes 404, then encodes an error response, and is installed with the first Handle; (R16.7) Use appends to the pending list when one exists and otherwise forwards to the router, Handle flushes every pending middleware into the router and clears the list before registering the route, and every returning path of Handle registers the route exactly once. NOT decided: chi's matching algorithm, whether capture is the inverse of URL construction for all strings (double percent-decoding depends on chi's RawPath/Path choice), client-side path building (delegated to net/url)."
+const explanationC16 = "Decides structural necessary conditions of C16 on http/mux.go through SSA path tables (loops unrolled once): (R16.1) the wildcard table is keyed method+\"::\"+pattern with the same separator and operand order at its store (Handle) and both loads (Vars, resolveWildcard), and the stored pattern is the rewritten one that is also registered with the router; (R16.2) every value placed in the map returned by Vars is unescape(params.Values[i]) and unescape falls back to its input on error; (R16.3) resolveWildcard re-inserts \"/{*name}\" after trimming exactly the length of the \"/*\" replacement; (R16.4) Handle and Use mutate the muxer only under the mutex (Lock first, deferred Unlock); (R16.5) the not-found handler negotiates an encoder, writes 404, then encodes an error response, and is installed with the first Handle; (R16.6) route probes (Routes.Match) outside ensureContext use a fresh routing context so that the recorded pattern and parameters of the request are not disturbed; (R16.7) Use appends to the pending list when one exists and otherwise forwards to the router, Handle flushes every pending middleware into the router and clears the list before registering the route, and every returning path of Handle registers the route exactly once. NOT decided: chi's matching algorithm, whether capture is the inverse of URL construction for all strings (double percent-decoding depends on chi's RawPath/Path choice), client-side path building (delegated to net/url)."
 
 const reRewritten = `\(\*regexp\.Regexp\)\.ReplaceAllString\(http\.wildPath, p2, "(/\*)"\)`
 
@@ -20,6 +21,7 @@ func runC16(c *an.Ctx) string {
 	r16Resolve(c, handleRepl)
 	r16Use(c)
 	r16NotFound(c)
+	r16Probe(c)
 	return explanationC16
 }
 
@@ -371,4 +373,39 @@ func r16NotFound(c *an.Ctx) {
 		probs = append(probs, "no path")
 	}
 	c.Check(len(probs) == 0, rule, f.Name+"$notfound", f.Decl.Pos(), "404 handler: negotiate encoder (sets Content-Type) ≺ WriteHeader(404) ≺ Encode(error response)", strings.Join(dedupStrings(probs), " | "))
+}
+
+// r16Probe: route probing (Routes.Match) records the matched pattern in the
+// context it is given. Only mux.ensureContext may hand it the request's own
+// routing context (that is its documented purpose); every other probe must
+// use a fresh chi.NewRouteContext(), otherwise the pattern reported to
+// middlewares and the wildcard values are corrupted.
+func r16Probe(c *an.Ctx) {
+	const rule = "R16.6"
+	n := 0
+	for _, dir := range []string{"http", "http/middleware"} {
+		for _, f := range c.AllFuncs(dir) {
+			info := f.Pkg.TypesInfo
+			for _, call := range an.AllCallsIn(f.Decl.Body) {
+				name := an.CalleeName(info, call)
+				if !strings.HasSuffix(name, "go-chi/chi/v5.Routes).Match") && !strings.HasSuffix(name, "go-chi/chi/v5.Mux).Match") {
+					continue
+				}
+				n++
+				construct := fmt.Sprintf("%s#Match@%s", f.Name, c.Position(call.Pos()))
+				if f.Name == "http.mux.ensureContext" {
+					c.Okf(rule, construct, "ensureContext initialises the request's own routing context (reviewed: this is its purpose)")
+					continue
+				}
+				fresh := false
+				if len(call.Args) > 0 {
+					if inner, ok := an.Unparen(call.Args[0]).(*ast.CallExpr); ok && strings.HasSuffix(an.CalleeName(info, inner), "go-chi/chi/v5.NewRouteContext") {
+						fresh = true
+					}
+				}
+				c.Check(fresh, rule, construct, call.Pos(), "route probe uses a fresh routing context", "route probe is given "+an.Src(c.Fset, call.Args[0])+" instead of a fresh chi.NewRouteContext(): the probe appends to the request's recorded route patterns and URL parameters")
+			}
+		}
+	}
+	c.Floor(rule, n, 3, "Routes.Match probes")
 }
